@@ -68,8 +68,28 @@ async def run_config(ctx, tree, kind, seqs, rnd, results):
         abort = q.head.get('X-Verif-Abort') == '1' and kr.size > 1
         slow = q.head.get('X-Verif-Slow') == '1'
         kr.ev.append({'e': 'OResp', 'v': v, 'key': kr.key, 'status': kr.status, 'len': kr.size, 'whole': not abort})
-        head = peers.response_head(kr.status, 'X', [('Content-Length', str(kr.size)), ('Cache-Control', 'max-age=3600'), ('Date', peers.http_date()),
+        chunked = getattr(kr, 'framing', 'length') == 'chunked'
+        head = peers.response_head(kr.status, 'X', [('Transfer-Encoding', 'chunked') if chunked else ('Content-Length', str(kr.size)), ('Cache-Control', 'max-age=3600'), ('Date', peers.http_date()),
                                                     ('X-Verif-Version', str(v)), ('X-Verif-Canary', str(v)), ('X-Verif-Origin', '1'), ('ETag', kr.etag)])
+        if chunked:
+            # the same bytes in chunks; a failed fetch ends by closing, or by framing that turns malformed after half of the body
+            def enc(data):
+                out, pos = b'', 0
+                while pos < len(data):
+                    k = min(len(data) - pos, kr.rnd.choice([1, 7, 500, 4096, 30000]))
+                    out += b'%x\r\n' % k + data[pos:pos + k] + b'\r\n'
+                    pos += k
+                return out
+            if abort:
+                how = kr.rnd.choice(['close', 'garbage', 'nonhex', 'nolast', 'nocrlf'])
+                kr.ev[-1]['abort_how'] = how
+                tail = {'close': b'', 'garbage': b'\x00\xff garbage \r\n', 'nonhex': b'xyz\r\nabc\r\n', 'nolast': b'', 'nocrlf': b'5\r\nabcdeXX0\r\n\r\n'}[how]
+                await oc.send(head + enc(body[:kr.size // 2 if how != 'nolast' else kr.size]) + tail)
+                await asyncio.sleep(0.03)
+                oc.close()
+                return True
+            await oc.send(head + enc(body) + b'0\r\n\r\n')
+            return False
         if abort:
             await oc.send(head + body[:kr.size // 2])
             await asyncio.sleep(0.03)
@@ -135,6 +155,7 @@ async def run_config(ctx, tree, kind, seqs, rnd, results):
         krs = []
         for i, ops in enumerate(seqs):
             kr = KeyRun(i, ops, random.Random(rnd.random()), sq.port, origin.port)
+            kr.framing = 'chunked' if i % 3 == 2 else 'length'
             keys[kr.key] = kr
             krs.append(kr)
         await escen.gather_limited([run_key(k) for k in krs], limit=8)
@@ -179,7 +200,13 @@ def run(ctx):
             kind, kr.ops, kr.size, json.dumps([kr.ev[j] for j in bad][:2])),
                       {'kind': 'hits', 'class': cls, 'store': kind, 'ops': kr.ops, 'size': kr.size, 'events': kr.ev})
     hits = sum(1 for _, kr in results for e in kr.ev if e['e'] == 'CResp' and ';hit' in e.get('cs', ''))
-    ctx.cov['impl_distinct'] = len({json.dumps([k, kr.ops, kr.size, kr.status]) for k, kr in results})
+    ctx.cov['impl_distinct'] = len({json.dumps([k, kr.ops, kr.size, kr.status, getattr(kr, 'framing', 'length')]) for k, kr in results})
+    hows = {}
+    for _, kr in results:
+        for e in kr.ev:
+            if e.get('e') == 'OResp' and not e.get('whole'):
+                hows[e.get('abort_how', 'length-short')] = hows.get(e.get('abort_how', 'length-short'), 0) + 1
+    ctx.cov['failed_fetches_by_kind'] = hows
     ctx.cov['responses_checked'] = sum(1 for _, kr in results for e in kr.ev if e['e'] == 'CResp')
     ctx.cov['cache_hits_observed'] = hits
     ctx.cov['hits_by_store'] = {k: sum(1 for kk, kr in results if kk == k for e in kr.ev if e['e'] == 'CResp' and ';hit' in e.get('cs', '')) for k in kinds}
@@ -189,7 +216,7 @@ def run(ctx):
         ctx.notes += skipped
     for kind, kr in results[:2]:
         ctx.sample({'store': kind, 'ops': kr.ops, 'size': kr.size, 'events': kr.ev[:8]})
-    ctx.cov['rule'] = ('operation sequences = all words of length 4 over {get, getslow(+overlapping reader), reload, pair, pressure, abortfetch, reval(304 with a larger header block, then get)} explored by '
+    ctx.cov['rule'] = ('operation sequences = all words of length 4 over {get, getslow(+overlapping reader), reload, pair, pressure, abortfetch, reval(304 with a larger header block, then get)} x origin framing {Content-Length, chunked; a failed chunked fetch ends by close, garbage / non-hex chunk size, missing last-chunk, missing CRLF after chunk data} explored by '
                        'TLC on HitsScen.tla; each realised on its own URL (8 URLs in flight concurrently) per store type with object sizes on the page/slot '
                        'boundary lattice; one history per URL validated by TLC against Hits.tla. Non-trivial = distinct (store, sequence, size, status).')
     ctx.assumptions += ['body bytes projected to (version, length, intact) by the driver', 'SMP shared memory cache is covered by C19; diskd only in the thorough tier']
